@@ -1,6 +1,6 @@
 (* C16 — Resource registers exactly the documented REST table for the controller. Property theorems only. *)
 From Coq Require Import Permutation.
-From Rux Require Import Base Str Consts Norm NormFacts Reg RegFacts Rest RestFacts.
+From Rux Require Import Base Str Consts Norm NormFacts Reg RegFacts Rest RestFacts Pattern Pat Cache Table TableFacts PatTable SelectFacts RoundTrip TableLink Sys RestLookup.
 
 (* For every subset of the seven actions, visited in ANY order (Go iterates a map), every per-action middleware
    map and base path: Resource registers exactly one route per implemented action — documented methods and name,
@@ -33,8 +33,48 @@ Proof. exact resource_accepted. Qed.
 Theorem C16_guard : resource_guard false true = Panic /\ resource_guard true false = Panic /\ resource_guard true true = Ok tt.
 Proof. exact resource_guard_rejects. Qed.
 
+(* ---------- lookups on the registered table (RestLookup.v) ---------- *)
+(* the router built from the pattern TEXTS Resource registers (string-level model), for any printable prefix G: a request
+   is served by action a exactly when a is implemented, allows the method and the path has a's documented shape - with the
+   single exception that GET G/create is served by Create and NEVER by Show when Create is implemented; {id} is any
+   non-empty segment without '/' *)
+Theorem C16_lookup_table : forall o G acts rt m path d a,
+  rest_prefix G = true -> o_caching o = false -> no_slash m -> rooted path ->
+  reg_routes (new_router o) (map (fun a => entry_rdef (res_entry G a)) acts) = Ok rt ->
+  (option_map (fun i => nth i acts d) (sel (fst (match_ rt m path))) = Some a <->
+   In a acts /\ serves G a m path /\ ~ (a = AShow /\ In ACreate acts /\ path = G ++ create_seg)).
+Proof. exact rest_lookup_table_string. Qed.
+Theorem C16_create_never_show : forall o G acts rt d,
+  rest_prefix G = true -> o_caching o = false -> In ACreate acts ->
+  reg_routes (new_router o) (map (fun a => entry_rdef (res_entry G a)) acts) = Ok rt ->
+  option_map (fun i => nth i acts d) (sel (fst (match_ rt GET (G ++ create_seg)))) = Some ACreate.
+Proof. exact create_never_show_string. Qed.
+(* the action that serves a request does not depend on the order in which Go's map iteration registered the table *)
+Theorem C16_lookup_order_independent : forall o G acts acts' rt rt' m path d,
+  rest_prefix G = true -> Permutation acts acts' -> o_caching o = false -> no_slash m -> rooted path ->
+  reg_routes (new_router o) (map (fun a => entry_rdef (res_entry G a)) acts) = Ok rt ->
+  reg_routes (new_router o) (map (fun a => entry_rdef (res_entry G a)) acts') = Ok rt' ->
+  option_map (fun i => nth i acts d) (sel (fst (match_ rt m path))) =
+  option_map (fun i => nth i acts' d) (sel (fst (match_ rt' m path))).
+Proof. exact rest_lookup_order_independent_string. Qed.
+(* and these entries are what Resource registers (resource_stmts run through the registration model) *)
+Theorem C16_lookup_order_independent_resource : forall o base res acts acts' uses st1 st2 G rt rt' m path d,
+  G = nf false (base ++ res) -> clean G -> rest_prefix G = true -> Permutation acts acts' ->
+  o_caching o = false -> no_slash m -> rooted path ->
+  exec_block false (resource_stmts base res acts uses) rinit = Ok st1 ->
+  exec_block false (resource_stmts base res acts' uses) rinit = Ok st2 ->
+  reg_routes (new_router o) (map rdef_of (r_routes st1)) = Ok rt ->
+  reg_routes (new_router o) (map rdef_of (r_routes st2)) = Ok rt' ->
+  option_map (fun i => nth i acts d) (sel (fst (match_ rt m path))) =
+  option_map (fun i => nth i acts' d) (sel (fst (match_ rt' m path))).
+Proof. exact resource_lookup_order_independent. Qed.
+
 Print Assumptions C16_table.
 Print Assumptions C16_order_independent.
 Print Assumptions C16_documented_paths.
 Print Assumptions C16_accepted.
 Print Assumptions C16_guard.
+Print Assumptions C16_lookup_table.
+Print Assumptions C16_create_never_show.
+Print Assumptions C16_lookup_order_independent.
+Print Assumptions C16_lookup_order_independent_resource.
